@@ -44,3 +44,45 @@ contract(
     },
     locals={"rows": Rows},
 )
+
+JsonDoc = Struct(data=Records, columns=Cols)
+# number of visible body lines among the first n
+ghost("FirstHeader", ["t"], "uf_first_visible_header(t)")
+
+contract(
+    TR + "::ReportTable.to_json", props=["C18"],
+    params={"self": Ref("ReportTable")}, ret=JsonDoc,
+    requires=[
+        # region of validity recorded as known finding D15: column titles are pairwise different (lower-cased) and no
+        # line is hidden; outside it JSON and CSV differ (a repeated title collapses into one key, hidden lines are skipped)
+        ("first-header-visible", "len(self.header_lines) > 0 and not self.header_lines[0].is_hidden"),
+        ("no-hidden-lines", "forall(k, 0, len(self.body_lines), not self.body_lines[k].is_hidden)"),
+        ("distinct-titles", "forall(a, 0, len(self.header_lines[0].cells), forall(b, 0, len(self.header_lines[0].cells), "
+                            "implies(a != b, uf_lower(self.header_lines[0].cells[a].text) != uf_lower(self.header_lines[0].cells[b].text))))"),
+    ],
+    ensures=[
+        ("columns", "len(result['columns']) == len(self.header_lines[0].cells) and "
+                    "forall(j, 0, len(result['columns']), result['columns'][j] == uf_lower(self.header_lines[0].cells[j].text))"),
+        # C18: one record per body line, and every cell of the CSV row is the value under its column's key
+        ("row-count", "len(result['data']) == len(self.body_lines)"),
+        ("same-cells", "forall(k, 0, len(self.body_lines), forall(j, 0, len(self.body_lines[k].cells), "
+                       "implies(j < len(self.header_lines[0].cells), "
+                       "uf_lower(self.header_lines[0].cells[j].text) in result['data'][k] and "
+                       "result['data'][k][uf_lower(self.header_lines[0].cells[j].text)] == self.body_lines[k].cells[j].text)))"),
+    ],
+    loops={
+        1: {"inv": [
+            ("n", "len(records) == _i"),
+            ("cols", "len(column_names) == len(self.header_lines[0].cells) and "
+                     "forall(j, 0, len(column_names), column_names[j] == uf_lower(self.header_lines[0].cells[j].text))"),
+            ("cells", "forall(k, 0, _i, forall(j, 0, len(self.body_lines[k].cells), implies(j < len(column_names), "
+                      "column_names[j] in records[k] and records[k][column_names[j]] == self.body_lines[k].cells[j].text)))"),
+        ]},
+        2: {"inv": [
+            ("filled", "forall(j, 0, _i, implies(j < len(column_names), column_names[j] in record and "
+                       "record[column_names[j]] == line.cells[j].text))"),
+        ]},
+    },
+    locals={"column_names": Cols, "records": Records, "record": Record},
+    calls={},
+)
